@@ -335,3 +335,61 @@ Proof.
   destruct vals as [|v vals]; cbn [combine map]; [constructor|].
   constructor; [|apply IH]. cbn [fst snd]. apply iabs_ub_ok. apply isub_ok; [exact Hi | apply iofQ_ok].
 Qed.
+
+(* ---------------------------------------------------------------- (4) in the terms of the protocol: rational reduced phases, the model's
+   own full-phase layout (Model/SymQspM.v) and the Wx product Ux_at of Theory/C01T.v *)
+From PyqspV Require Import Model.SymQspM Model.Checkers Theory.QC Theory.CertT Theory.C01T.
+
+Definition csr (q : Q) : R * R := (cos (Q2R q), sin (Q2R q)).
+
+Lemma cs2_dblcs q : cs2 (Q2R q) = dblcs (csr q).
+Proof. unfold cs2, dblcs, csr; cbn [fst snd]. rewrite cos_2a, sin_2a. f_equal; ring. Qed.
+
+Lemma csC_dbl q : csC (dbl OpsQ q) = cR (dblcs (csr q)).
+Proof.
+  unfold csC, cR, dblcs, csr, dbl; cbn [fst snd dadd OpsQ]. rewrite qadd_ok, cos_plus, sin_plus.
+  f_equal; f_equal; ring.
+Qed.
+
+Lemma map_cR_csr l : map cR (map csr l) = map csC l.
+Proof. rewrite map_map. apply map_ext. intros q. reflexivity. Qed.
+
+Lemma full_layout_cs odd r0 rt full : sym_full_q odd (r0 :: rt) = Some full ->
+  map csC full = map cR (full_cs odd (csr r0) (map csr rt)).
+Proof.
+  unfold sym_full_q, sym_full, full_cs. destruct odd.
+  - intros H; injection H as <-. cbn [rev map]. repeat rewrite ?map_app, ?map_rev. cbn [map]. rewrite !map_cR_csr. reflexivity.
+  - destruct rt as [|r1 rt'].
+    + intros H; injection H as <-. cbn [map rev app]. change (qadd r0 r0) with (dbl OpsQ r0). rewrite csC_dbl. reflexivity.
+    + intros H; injection H as <-. repeat rewrite ?map_app, ?map_rev. cbn [map app].
+      change (qadd r0 r0) with (dbl OpsQ r0). rewrite ?csC_dbl. change (cR (csr r1) :: map cR (map csr rt')) with (map cR (map csr (r1 :: rt'))). rewrite !map_cR_csr. reflexivity.
+Qed.
+
+Lemma unit_csr q : unitcs (csr q).
+Proof. unfold unitcs, csr; cbn [fst snd]. pose proof (sin2_cos2 (Q2R q)) as H. unfold Rsqr in H. lra. Qed.
+
+(* the value entry of gen_poly_jacobian_components(cos theta) is Im <0|U(cos theta)|0> of the protocol's own full phases *)
+Theorem jac3_value_is_protocol_response odd r0 rt phi0 rest theta : 0 <= theta <= PI ->
+  sym_full_q odd (r0 :: rt) = Some (phi0 :: rest) ->
+  last (jac3R odd (map Q2R (r0 :: rt)) (cos theta)) 0 = snd (m00 (Ux_at phi0 rest theta)).
+Proof.
+  intros Ht Hfull.
+  assert (Hs : sqrt (1 - cos theta * cos theta) = sin theta).
+  { pose proof (sin2_cos2 theta) as H. unfold Rsqr in H.
+    replace (1 - cos theta * cos theta) with (sin theta * sin theta) by lra.
+    apply sqrt_square. apply sin_ge_0; lra. }
+  assert (Has : cos theta * cos theta + sin theta * sin theta = 1).
+  { pose proof (sin2_cos2 theta) as H. unfold Rsqr in H. lra. }
+  unfold jac3R. rewrite Hs.
+  assert (El : map cs2 (map Q2R (r0 :: rt)) = map dblcs (csr r0 :: map csr rt)).
+  { cbn [map]. rewrite cs2_dblcs. f_equal. rewrite !map_map. apply map_ext. intros q. apply cs2_dblcs. }
+  rewrite El.
+  rewrite (jac3_value_is_im_response (cos theta) (sin theta) Has odd (csr r0) (map csr rt) (unit_csr r0)).
+  2:{ apply Forall_forall. intros x Hx. apply in_map_iff in Hx. destruct Hx as [q [<- _]]. apply unit_csr. }
+  pose proof (full_layout_cs odd r0 rt (phi0 :: rest) Hfull) as EL. cbn [map] in EL.
+  unfold Ulist, Ux_at.
+  destruct (full_cs odd (csr r0) (map csr rt)) as [|c0 l] eqn:Ef; [discriminate EL|].
+  cbn [map] in EL.
+  pose proof (f_equal (hd (cR c0)) EL) as E0. pose proof (f_equal (@tl _) EL) as E1. cbn [hd tl] in E0, E1.
+  rewrite E0, E1. reflexivity.
+Qed.
